@@ -145,10 +145,10 @@ def run_case(case):
             for a, b_, rid in collisions:
                 viol("quadrature-rule-id-collision", f"{cellname}/{itype}: rules {a[1]}/{a[2]} and {b_[1]}/{b_[2]} on {a[0]} are different but share id '{rid}' (names weights_{rid}, FE*_Q{rid}, sp_{rid}_* collide)")
             # witnesses: compile colliding pairs (and a sample of non-colliding pairs, which must compile)
-            def compile_pair(a, b_):
+            def compile_pair(a, b_, **kw):
                 if a[1] == "vertex" or b_[1] == "vertex" or a[0] != (cellname if itype == "cell" else a[0]):
                     pass
-                rc_ = {"b": "two_rules", "cell": cellname, "p": {"r1": [a[1], a[2]], "r2": [b_[1], b_[2]], "itype": itype}}
+                rc_ = {"b": "two_rules", "cell": cellname, "p": dict({"r1": [a[1], a[2]], "r2": [b_[1], b_[2]], "itype": itype}, **kw)}
                 bb = corpus.build(rc_)
                 try:
                     header, source = E.generate_source(bb.forms, {})
@@ -176,6 +176,26 @@ def run_case(case):
                     viol("rule-pair-does-not-compile", f"{cellname}/{itype}: {a[1]}/{a[2]} + {b_[1]}/{b_[2]}: {out}")
                 else:
                     res["nontrivial"].append(case_hash([cellname, itype, a, b_]))
+            # different rules with the SAME number of points (and, separately, the same degree) in one kernel, same integrand under
+            # both: anything ffcx caches per rule by a coarser key than the rule itself (point count, degree) would clash
+            twins = [(a, b_) for a, b_ in itertools.combinations(keys, 2) if a[0] == b_[0] and rules[a].id() != rules[b_].id()
+                     and (rules[a].points.shape[0] == rules[b_].points.shape[0] or (a[2] == b_[2] and a[1] != b_[1]))]
+            count("equal_point_count_or_degree_pairs", len(twins))
+            lim = 10 if case.get("sample", 4) <= 3 else 60
+            order = [int(i) for i in rng.permutation(len(twins))]
+            # smallest rules first (cheap, and the classical clashes: degree 3/4 on a triangle, degree 2 / vertex), then a random sample
+            first = sorted(range(len(twins)), key=lambda i: (rules[twins[i][0]].points.shape[0], i))[: lim // 2]
+            for i in list(dict.fromkeys(first + order))[:lim]:
+                a, b_ = twins[i]
+                if cellname == "prism" and itype != "cell":
+                    continue
+                out = compile_pair(a, b_, same=True, arity=1 + (i % 2))
+                count("twin_pairs_compiled")
+                if out != "ok":
+                    viol("rule-pair-does-not-compile", f"{cellname}/{itype}: the same integrand under {a[1]}/{a[2]} ({rules[a].points.shape[0]} points) and {b_[1]}/{b_[2]} "
+                         f"({rules[b_].points.shape[0]} points): {out}")
+                else:
+                    res["nontrivial"].append(case_hash([cellname, itype, "twin", a, b_]))
             if not collisions:
                 res["nontrivial"].append(case_hash([cellname, itype, "pairs", npairs]))
             res["cover"]["cell_itype"] = [f"{cellname}/{itype}"]
